@@ -43,6 +43,8 @@ type connState struct {
 	maxOpen   int
 	// source: highest acked seq (what a pruning upstream discarded), -1 none
 	maxAcked int
+	// host-side Send attempts of ack messages (flakyClient)
+	sendAttempts int
 }
 
 // Plugins implements the lifecycle services' ConnectorPluginService with fakes
@@ -59,8 +61,12 @@ func (p *Plugins) NewDispenser(logger log.CtxLogger, name string, connectorID st
 		if spec == nil {
 			return nil, fmt.Errorf("lab: unknown source %q", connectorID)
 		}
-		return builtin.NewDispenser(plugin.FullName(name), logger, nil,
-			func() pconnector.SourcePlugin { return newSrcPlugin(w, spec, idx) }, nil), nil
+		d := builtin.NewDispenser(plugin.FullName(name), logger, nil,
+			func() pconnector.SourcePlugin { return newSrcPlugin(w, spec, idx) }, nil)
+		if len(spec.AckSendFail) > 0 || spec.AckSendBreakAtP1 > 0 {
+			return &flakyDispenser{Dispenser: d, w: w, spec: spec}, nil
+		}
+		return d, nil
 	case PluginDst:
 		spec, idx := w.destSpec(connectorID)
 		if spec == nil {
@@ -73,6 +79,91 @@ func (p *Plugins) NewDispenser(logger log.CtxLogger, name string, connectorID st
 			func() pconnector.DestinationPlugin { return newDstPlugin(w, connectorID, -1, true, nil) }), nil
 	}
 	return nil, fmt.Errorf("lab: unknown plugin %q", name)
+}
+
+// ---------------------------------------------------------------- transient stream-send failures
+
+// flakyDispenser wraps the real built-in dispenser: the host side of the source stream it hands out
+// fails scripted Send calls (ack messages) WITHOUT delivering them, which is what a transient
+// failure of the plugin transport looks like to connector.Source.
+type flakyDispenser struct {
+	connectorPlugin.Dispenser
+	w    *World
+	spec *SourceSpec
+}
+
+func (d *flakyDispenser) DispenseSource() (connectorPlugin.SourcePlugin, error) {
+	sp, err := d.Dispenser.DispenseSource()
+	if err != nil {
+		return nil, err
+	}
+	st := d.w.conn(d.spec.ID)
+	st.mu.Lock()
+	inst := st.instances + 1 // the instance the adapter is about to create lazily or has created
+	st.mu.Unlock()
+	return &flakySrc{SourcePlugin: sp, d: d, instHint: inst}, nil
+}
+
+type flakySrc struct {
+	connectorPlugin.SourcePlugin
+	d        *flakyDispenser
+	instHint int
+}
+
+func (f *flakySrc) NewStream() pconnector.SourceRunStream {
+	return &flakyStream{inner: f.SourcePlugin.NewStream(), f: f}
+}
+
+func (f *flakySrc) Run(ctx context.Context, stream pconnector.SourceRunStream) error {
+	fs, ok := stream.(*flakyStream)
+	if !ok {
+		return f.SourcePlugin.Run(ctx, stream)
+	}
+	return f.SourcePlugin.Run(ctx, fs.inner)
+}
+
+type flakyStream struct {
+	inner pconnector.SourceRunStream
+	f     *flakySrc
+}
+
+func (s *flakyStream) Server() pconnector.SourceRunStreamServer { return s.inner.Server() }
+func (s *flakyStream) Client() pconnector.SourceRunStreamClient {
+	return &flakyClient{SourceRunStreamClient: s.inner.Client(), f: s.f}
+}
+
+type flakyClient struct {
+	pconnector.SourceRunStreamClient
+	f *flakySrc
+}
+
+func (c *flakyClient) Send(req pconnector.SourceRunRequest) error {
+	d := c.f.d
+	st := d.w.conn(d.spec.ID)
+	st.mu.Lock()
+	k := st.sendAttempts
+	st.sendAttempts++
+	inst := st.instances
+	st.mu.Unlock()
+	fail := false
+	for _, i := range d.spec.AckSendFail {
+		if i == k {
+			fail = true
+		}
+	}
+	if d.spec.AckSendBreakAtP1 > 0 && k >= d.spec.AckSendBreakAtP1-1 && inst <= 1 {
+		fail = true
+	}
+	if fail {
+		first := ""
+		if len(req.AckPositions) > 0 {
+			first = string(req.AckPositions[0])
+		}
+		d.w.Log.Add(Event{Kind: EvNote, Comp: d.spec.ID, Inst: inst, Src: -1, Seq: -1, Pos: first,
+			Info: fmt.Sprintf("ack-send-failed attempt=%d n=%d", k, len(req.AckPositions))})
+		return fmt.Errorf("%s: source %s stream send failure (attempt %d)", Marker, d.spec.ID, k)
+	}
+	return c.SourceRunStreamClient.Send(req)
 }
 
 // ---------------------------------------------------------------- source
